@@ -27,13 +27,27 @@ def unpack_of(defs: Dict[str, List[Def]], name: str) -> Optional[Tuple[ast.AST, 
     return None
 
 
-def guards_of(pm: Dict[ast.AST, ast.AST], node: ast.AST, stop: ast.AST) -> List[Tuple[ast.AST, bool]]:
+def guards_of(pm: Dict[ast.AST, ast.AST], node: ast.AST, stop: ast.AST, early: bool = False) -> List[Tuple[ast.AST, bool]]:
     """Enclosing ``if``/``while``/conditional-expression tests with the branch
-    sense under which ``node`` executes, innermost first, up to ``stop``."""
+    sense under which ``node`` executes, innermost first, up to ``stop``.
+
+    ``early=True`` adds the guard clauses that precede the statement in its own blocks: an earlier sibling
+    ``if C: continue | break | return | raise`` (no else) means the statement runs only when C is false."""
     out = []
     child = node
     cur = pm.get(node)
-    while cur is not None and cur is not stop:
+    while cur is not None:
+        if early:
+            for f in ("body", "orelse", "finalbody"):
+                lst = getattr(cur, f, None)
+                if isinstance(lst, list) and any(x is child for x in lst):
+                    for sib in lst:
+                        if sib is child:
+                            break
+                        if isinstance(sib, ast.If) and not sib.orelse and sib.body and isinstance(sib.body[-1], (ast.Continue, ast.Break, ast.Return, ast.Raise)):
+                            out.append((sib.test, False))
+        if cur is stop:
+            break
         if isinstance(cur, (ast.If, ast.While)):
             if _in_list(cur.body, child):
                 out.append((cur.test, True))
@@ -46,7 +60,13 @@ def guards_of(pm: Dict[ast.AST, ast.AST], node: ast.AST, stop: ast.AST) -> List[
                 out.append((cur.test, False))
         child = cur
         cur = pm.get(cur)
-    return out
+    # `not X` under sense s is X under sense (not s): one spelling only
+    norm_out = []
+    for t, s_ in out:
+        while isinstance(t, ast.UnaryOp) and isinstance(t.op, ast.Not):
+            t, s_ = t.operand, not s_
+        norm_out.append((t, s_))
+    return norm_out
 
 
 def _in_list(lst: Sequence[ast.AST], node: ast.AST) -> bool:
